@@ -6,8 +6,11 @@
  *   s = aggsig[32n..32n+32) >= group order => 0;   lhs = s*G for exactly that s;
  *   ret = the "is infinity" verdict of the final group addition;
  *   every index i*32, n*32 stays inside the caller's objects (objects have EXACT sizes here), for all n.
+ * Randomizer wiring (same run): the running hash starts from the HalfAgg/randomizer midstate (one init call),
+ * iteration i appends exactly r_i || be(x(pk_i)) || m_i at stream positions 64+96i.. (ghost position), z_i is the
+ * digest (mod n) of a finalize at stream length 64+96(i+1), and is the multiplier of T_i = R_i + e_i*P_i for
+ * i != 0 (z_0 unused); e_i is the challenge oracle's answer and multiplies exactly P_i.
  * The loop over n is closed by the loop contract in hooks/C17_halfagg_loops.diff. */
-#define LOG_ECMULT_GEN
 #include "assumed_C17.h"
 #include "src/secp256k1.c"
 #include "post.h"
@@ -16,7 +19,7 @@
 
 void h_aggverify(void) {
     secp256k1_context ctx;
-    INPUT(size_t, n); INPUT(size_t, alen); INPUT(size_t, gk);
+    INPUT(size_t, n); INPUT(size_t, alen); INPUT(size_t, gk); INPUT(uint64_t, wpos);
     INPUT(_Bool, use_pk); INPUT(_Bool, use_msgs); INPUT(_Bool, use_agg); INPUT(_Bool, built);
     unsigned char *aggsig, *msgs; secp256k1_xonly_pubkey *pks; size_t nn; int ret, args_ok, len_ok;
     wide nw = N_(), p = P_();
@@ -26,11 +29,15 @@ void h_aggverify(void) {
     pks = malloc(nn ? nn * sizeof(*pks) : 1); msgs = malloc(nn ? nn * 32 : 1);
     __CPROVER_assume(pks != NULL && msgs != NULL);
     verif_ctx_init(&ctx); ctx.hash_ctx.fn_sha256_compression = secp256k1_sha256_transform; ctx.ecmult_gen_ctx.built = built;
-    HASHLOG_RESET(); g_we = -1; g_wpos = 0; g_gen_n = 0; c17_last_inf = 0;
-    c17_aggsig = aggsig; c17_msgs = msgs; c17_pks = pks; c17_n = n;
-    verif_c17_xo_n = 0; verif_c17_bad = 0; verif_c17_rej = 0;
+    g_gen_n = 0; c17_last_inf = 0; c17_phase = 0; c17_init_n = 0; c17_mode = 0;
+    c17_aggsig = aggsig; c17_msgs = msgs; c17_pks = pks; c17_n = n; c17_nb = 0; c17_sigs = NULL;
+    verif_c17_xo_n = 0; verif_c17_fin_n = 0; verif_c17_bad = 0; verif_c17_rej = 0; verif_c17_whit = 0;
     len_ok = (W(alen) == 32 * (W(n) + 1));
     verif_c17_gk = gk; verif_c17_gk_ok = (len_ok && gk < n) ? (be256(aggsig + 32 * gk) < p) : 1;
+    /* expected byte at stream position wpos of the running hash: signature t = (wpos-64)/96, r_t || be(x(pk_t)) || m_t */
+    verif_c17_wpos = wpos; verif_c17_wexp = 0;
+    if (len_ok && wpos >= 64 && wpos < 64 + 96 * (uint64_t)n) { size_t t = (wpos - 64) / 96, o = (wpos - 64) % 96;
+        verif_c17_wexp = o < 32 ? aggsig[32 * t + o] : o < 64 ? pks[t].data[31 - (o - 32)] : msgs[32 * t + (o - 64)]; }
 
     ret = secp256k1_schnorrsig_aggverify(&ctx, use_pk ? pks : NULL, use_msgs ? msgs : NULL, n, use_agg ? aggsig : NULL, alen);
     WITNESS_BUF(aggw, aggsig, alen, 96);
@@ -40,20 +47,22 @@ void h_aggverify(void) {
     args_ok = (use_pk || n == 0) && (use_msgs || n == 0) && use_agg && built;
     if (!args_ok) { __CPROVER_assert(ret == 0 && g_illegal == 1 && verif_c17_xo_n == 0 && g_gen_n == 0, "C17 aggverify: API misuse reports illegal use, returns 0, verifies nothing"); REACH("aggverify API misuse"); return; }
     __CPROVER_assert(g_illegal == 0, "C17 aggverify: no callback on well-formed arguments");
-    if (!len_ok) { __CPROVER_assert(ret == 0 && verif_c17_xo_n == 0 && g_gen_n == 0 && g_fin_n == 0, "C17 aggverify: aggsig_len != 32*(n+1) is rejected before anything is read");
+    if (!len_ok) { __CPROVER_assert(ret == 0 && verif_c17_xo_n == 0 && g_gen_n == 0 && verif_c17_fin_n == 0 && verif_c17_whit == 0, "C17 aggverify: aggsig_len != 32*(n+1) is rejected before anything is read");
         if (alen == 32 * n) REACH("aggverify length for n-1"); if (alen % 32 == 5 && alen / 32 == n + 1) REACH("aggverify length not a multiple of 32"); if (n > NMAX) REACH("aggverify huge n"); return; }
     if (ret == 1) {
-        __CPROVER_assert(verif_c17_xo_n == n && verif_c17_bad == 0 && verif_c17_rej == 0, "C17 aggverify: accept => n lifts, each of exactly x = r_i with even y, each successful; each challenge on (r_i, m_i, 32, pk_i)");
+        __CPROVER_assert(verif_c17_xo_n == n && verif_c17_bad == 0 && verif_c17_rej == 0, "C17 aggverify: accept => n lifts, each of exactly x = r_i with even y, each successful; each challenge on (r_i, m_i, 32, pk_i); e_i*P_i, z_i = digest_i mod n (i != 0); hash bytes as specified");
+        __CPROVER_assert(verif_c17_fin_n == n && c17_init_n == 1, "C17 aggverify: one randomizer per signature, one running hash initialised once");
+        if (wpos >= 64 && wpos < 64 + 96 * (uint64_t)n) __CPROVER_assert(verif_c17_whit, "C17 aggverify: every position of r_i || pk_i || m_i, i < n, is written to the running hash");
         if (gk < n) __CPROVER_assert(be256(aggsig + 32 * gk) < p, "C17 aggverify: accept => every r_i < p");
         __CPROVER_assert(be256(aggsig + 32 * n) < nw, "C17 aggverify: s >= group order is rejected");
         __CPROVER_assert(g_gen_n == 1 && sval(&g_gen_a0) == be256(aggsig + 32 * n), "C17 aggverify: lhs = s*G for s = the last 32 bytes");
     }
     if (g_gen_n == 1) __CPROVER_assert(ret == c17_last_inf, "C17 aggverify: result is the infinity verdict of lhs - rhs");
     else __CPROVER_assert(ret == 0, "C17 aggverify: no acceptance without the final comparison");
-    if (g_gen_n == 1 && verif_c17_xo_n == n) __CPROVER_assert(verif_c17_bad == 0 && verif_c17_rej == 0 && g_fin_n == (int)n, "C17 aggverify: the final comparison is reached only after n successful, correctly wired iterations");
+    if (g_gen_n == 1 && verif_c17_xo_n == n) __CPROVER_assert(verif_c17_bad == 0 && verif_c17_rej == 0 && verif_c17_fin_n == n, "C17 aggverify: the final comparison is reached only after n successful, correctly wired iterations");
     if (ret == 1 && n == 0) REACH("aggverify accepts n = 0");
     if (ret == 1 && n == 1) REACH("aggverify accepts n = 1");
-    if (ret == 1 && n == 1000000 && gk == 999999) REACH("aggverify accepts n = 10^6");
+    if (ret == 1 && n == 1000000 && gk == 999999 && wpos == 64 + 96 * 999999 + 40) REACH("aggverify accepts n = 10^6");
     if (ret == 0 && g_gen_n == 1) REACH("aggverify rejects at the final comparison");
     if (ret == 0 && g_gen_n == 0 && verif_c17_xo_n == n && verif_c17_rej == 0) REACH("aggverify rejects s >= n");
     if (ret == 0 && verif_c17_rej == 1 && n > 5) REACH("aggverify rejects on a lift verdict");
